@@ -50,7 +50,7 @@ def correspondence(rep, rng, tier):
   # ---- equal high and low bits: factored by Fermat or HLBE when r >= 3 and r+s >= len/4 + 2
   b = Batch('rsa.hlbe')
   bf = Batch('rsa.fermat')
-  for bits in (128, 256, 512) + ((1024, 2048) if tier == 'thorough' else ()):
+  for bits in (128, 130, 256, 258, 512) + ((1024, 2048) if tier == 'thorough' else ()):
     pb = bits // 2
     need = bits // 4 + 2
     for r in (3, 4, need // 2, need - 3, need - 1):
@@ -58,8 +58,10 @@ def correspondence(rep, rng, tier):
         s = need - r + extra
         if r < 1 or s < 1 or r + s >= pb - 2:
           continue
-        for _ in range(reps):
-          pq = gen_rsa.high_low_equal(rng, bits, r, s)
+        hreps = 1 if tier == 'quick' else reps
+        for rep_i in range(hreps + 2):
+          pq = (gen_rsa.high_low_equal(rng, bits, r, s) if rep_i < hreps else
+                gen_rsa.high_low_equal_extreme(rng, bits, r, s))
           if not pq:
             continue
           p, q = pq
